@@ -518,7 +518,11 @@ def _run_invalid(out, ctx, case, verdict, pname, reason, bad_stream):
     out.label("invalid=%s" % reason.split("-")[0])
     s = None if bad_stream else _mk_stream(case["stream"], 1)
     if bad_stream:
-        s = "not a stream"
+        # not a stream: a string, or (by the length of the class name) an object that merely looks a little like one
+        class _HalfStream:
+            def next_float(self):
+                return 0.5
+        s = "not a stream" if len(ctx.cname) % 2 else _HalfStream()
     try:
         ctx.make(s)
     except Inconclusive:
